@@ -124,6 +124,8 @@ Inductive op :=
 | ONewLeader (sh : Z) (id : string)         (* elector OnNewLeader -> setLeader *)
 | OStartLeading (sh : Z)                    (* elector.startLeading: setLeader(me) + limiter.startLeading *)
 | OStopLeading (sh : Z)                     (* elector.stopLeading + limiter.stopLeading *)
+| OStopFlaky (sh : Z)                       (* the same while the store's first flush fails (API outage):
+                                               stopLimitStoreWithRetry retries, the store is dropped at once *)
 | OLeaderCheck                              (* rateLimiter.leaderCheck *)
 | OClusterSet (u : string)                  (* informer add/update + UpstreamConditionHandler *)
 | OClusterDel (u : string)                  (* informer delete + UpstreamConditionHandler *)
@@ -147,7 +149,7 @@ Definition step (s : st) (o : op) : st * res :=
   match o with
   | ONewLeader sh id => (set_leaders s (zset sh id (leaders s)), RNil)
   | OStartLeading sh => (lim_start (set_leaders s (zset sh (me s) (leaders s))) sh, RNil)
-  | OStopLeading sh =>
+  | OStopLeading sh | OStopFlaky sh =>
       let s1 := if is_leader s sh then set_leaders s (zdel sh (leaders s)) else s in
       (lim_stop s1 sh, RNil)
   | OLeaderCheck => (leader_check s, RNil)
